@@ -575,7 +575,7 @@ func TestCheck(t *testing.T) {
 		"response cache (the CachingRoundTripper alone, and under the StrictHTTPClient of did:web resolution and of the status list fetch) = (cache size) x (what the cache answered before: empty, several entries in ascending/descending expiry, expired, nearly full, replaced, same path with other queries) " +
 		"x (caching headers) x (body length: 0, 1, max-bytes-1/+0/+1, 2x max-bytes, response limit-1/+0/+1, far over every limit, endless), followed by further requests on the same cache; " +
 		"discovery client = answers (entries/seed/timestamp, presentations re-signed after mutation; HTTP envelope faults) of a harness Discovery Server to the real client updater of a second node. " +
-		"presentation exchange grid = (descriptor templates by which credentials of a pool they select) x (group assignment) x (submission requirement shape: none, all, pick count/min/max, nested, a group named twice, unused group) x (credentials presented: subsets, orders, repetitions, JSON-LD/JWT) " +
+		"presentation exchange grid = (descriptor templates by which credentials of a pool they select) x (group assignment) x (submission requirement shape: none, all, pick count/min/max, nested, a group named twice, unused group; count/min/max at the edges of what the schema admits: 0, min>max, 2^31, 2^32, max int64, 1e18; definitions without any descriptor) x (credentials presented: subsets, orders, repetitions, JSON-LD/JWT, none; envelope without presentations) " +
 		"-> Match, submission builder, Resolve/Validate for several envelope shapes x submission shapes, ResolveConstraintsFields; the same definitions as discovery services (register, then search) and policy scopes (s2s token request) of the node; " +
 		"DAG sequences (worker process) = (DAG state: empty, root, chain, fork) x (relation of the received transaction to it: root, child of heads / one head / inner transaction, unknown, duplicated, partly unknown prevs, replay) x (lamport clock: correct, +-1, page boundaries, powers of two, 2^31 and 2^32 neighbours) x (payload supplied/absent/other), " +
 		"followed by XOR/IBLT/range queries, a correct child of what was accepted and a restart on the same store; besides exit/expiry the worker observes the bytes allocated since the scenario began (runaway = budget of 512 MiB exceeded before returning, reproduced 3x alone with 1536 MiB); " +
